@@ -52,6 +52,7 @@ type RouteProfile struct {
 	CheckC05    bool // in-system ack translation oracle (no-failure profiles)
 	BadMetadata bool // C20 in routing mode: hostile stream-open metadata next to the regular streams
 	Multi       bool // two or three proxy instances sharing a memberlist cluster; each cluster shard connects to one of them, tasks and acks for shards owned elsewhere travel over intra-proxy streams
+	Crash       bool // multi-instance: an instance may crash (all its connections break, no leave broadcast; the others learn from the failure detector); its shards reconnect to the remaining instances
 	BiasFaults  bool // place stream faults preferably where in-flight state exists (tasks delivered to a live target stream and not yet confirmed)
 }
 
@@ -97,6 +98,7 @@ type srcConn struct {
 	acks          []int64
 	closed        bool
 	lastWmAt      time.Duration
+	inst          *rInst // the proxy instance that opened the stream
 }
 
 type tgtTask struct {
@@ -177,6 +179,7 @@ type rInst struct {
 	observerA  *proxy.ReplicationStreamObserver
 	observerB  *proxy.ReplicationStreamObserver
 	startOK    bool
+	dead       bool // crashed: isolated from everything, ignored by the oracles from then on
 }
 
 // RouteWorld implements simrt.World.
@@ -185,16 +188,17 @@ type RouteWorld struct {
 	prof RouteProfile
 	cfg  RouteConfig
 
-	lifetime  context.Context
-	cancelAll context.CancelFunc
-	sm        proxy.ShardManager
-	outbound  adminservice.AdminServiceServer // serves cluster A
-	inbound   adminservice.AdminServiceServer // serves cluster B
-	observerA *proxy.ReplicationStreamObserver
-	observerB *proxy.ReplicationStreamObserver
-	insts     []*rInst
-	mlnet     *fakeml.Network
-	lastPP    map[string]time.Duration
+	lifetime    context.Context
+	cancelAll   context.CancelFunc
+	sm          proxy.ShardManager
+	outbound    adminservice.AdminServiceServer // serves cluster A
+	inbound     adminservice.AdminServiceServer // serves cluster B
+	observerA   *proxy.ReplicationStreamObserver
+	observerB   *proxy.ReplicationStreamObserver
+	insts       []*rInst
+	mlnet       *fakeml.Network
+	lastPP      map[string]time.Duration
+	pendingDead [][2]string // (at, dead): failure-detector verdicts not yet delivered
 
 	shards [3][]*shardModel // [cluster][shard-1]
 	phase  int              // 0 chaos, 1 tail, 2 close
@@ -210,6 +214,7 @@ type RouteWorld struct {
 	ackedUnconfirmed map[taskKey]bool       // tasks already reported as acknowledged without confirmation
 	intraSent        map[taskKey][]intraHop // multi-instance: intra-proxy streams a task was written to
 	intraStreams     []*simio.Stream
+	intraEnds        map[*simio.Stream][2]string // opener, peer
 
 	faultsLeft int
 	faults     map[string]int
@@ -320,7 +325,7 @@ func (w *RouteWorld) shard(id ShardID) *shardModel {
 // routing mode (cluster_connection.go: getRoutingParameters).
 func NewRouteWorld(s *simrt.Sim, prof RouteProfile) *RouteWorld {
 	w := &RouteWorld{s: s, prof: prof, confirmed: map[taskKey]bool{}, deliveries: map[taskKey][]delivery{},
-		toProxy: map[taskKey]bool{}, readAt: map[taskKey]int{}, readInc: map[taskKey]int{}, readCount: map[taskKey]int{}, faults: map[string]int{}, ackedUnconfirmed: map[taskKey]bool{}, intraSent: map[taskKey][]intraHop{}}
+		toProxy: map[taskKey]bool{}, readAt: map[taskKey]int{}, readInc: map[taskKey]int{}, readCount: map[taskKey]int{}, faults: map[string]int{}, ackedUnconfirmed: map[taskKey]bool{}, intraSent: map[taskKey][]intraHop{}, intraEnds: map[*simio.Stream][2]string{}}
 	w.cfg = drawRouteConfig(s, prof)
 	s.SetPKeep(w.cfg.PKeep)
 	w.faultsLeft = w.cfg.FaultBudget
@@ -340,12 +345,6 @@ func NewRouteWorld(s *simrt.Sim, prof RouteProfile) *RouteWorld {
 	w.lifetime, w.cancelAll = context.WithCancel(context.Background())
 	scc := config.ShardCountConfig{Mode: config.ShardCountRouting, LocalShardCount: int32(w.cfg.NA), RemoteShardCount: int32(w.cfg.NB)}
 	loggers := noopLoggers{}
-	toA := &adminClient{name: "toA", open: func(ctx context.Context) (adminservice.AdminService_StreamWorkflowReplicationMessagesClient, error) {
-		return w.openSource(clusterA, ctx)
-	}}
-	toB := &adminClient{name: "toB", open: func(ctx context.Context) (adminservice.AdminService_StreamWorkflowReplicationMessagesClient, error) {
-		return w.openSource(clusterB, ctx)
-	}}
 	addrs := map[string]string{}
 	for i := 0; i < w.cfg.NInst; i++ {
 		addrs[fmt.Sprintf("n%d", i+1)] = fmt.Sprintf("proxy-n%d:7000", i+1)
@@ -360,11 +359,25 @@ func NewRouteWorld(s *simrt.Sim, prof RouteProfile) *RouteWorld {
 	for i := 0; i < w.cfg.NInst; i++ {
 		in := &rInst{name: fmt.Sprintf("n%d", i+1)}
 		in.addr = addrs[in.name]
+		toA := &adminClient{name: "toA", open: func(ctx context.Context) (adminservice.AdminService_StreamWorkflowReplicationMessagesClient, error) {
+			return w.openSource(in, clusterA, ctx)
+		}}
+		toB := &adminClient{name: "toB", open: func(ctx context.Context) (adminservice.AdminService_StreamWorkflowReplicationMessagesClient, error) {
+			return w.openSource(in, clusterB, ctx)
+		}}
 		in.lifetime, in.cancel = w.lifetime, w.cancelAll
 		var mc *config.MemberlistConfig
 		if prof.Multi {
 			mc = &config.MemberlistConfig{Enabled: true, NodeName: in.name, BindAddr: fmt.Sprintf("10.0.0.%d", i+1), BindPort: 7946, ProxyAddresses: addrs}
-			if i > 0 {
+			if prof.Crash {
+				// every instance is configured with all the others (a DNS name that resolves to the
+				// whole deployment): a crashed seed must not keep the survivors apart
+				for j := 0; j < w.cfg.NInst; j++ {
+					if j != i {
+						mc.JoinAddrs = append(mc.JoinAddrs, fmt.Sprintf("10.0.0.%d:7946", j+1))
+					}
+				}
+			} else if i > 0 {
 				mc.JoinAddrs = []string{"10.0.0.1:7946"}
 			}
 		}
@@ -403,7 +416,7 @@ func NewRouteWorld(s *simrt.Sim, prof RouteProfile) *RouteWorld {
 						peer = in
 					}
 				}
-				if peer == nil || !peer.startOK {
+				if peer == nil || !peer.startOK || peer.dead {
 					return nil, status.Error(codes.Unavailable, "peer unreachable")
 				}
 				w.nextSt++
@@ -413,8 +426,14 @@ func NewRouteWorld(s *simrt.Sim, prof RouteProfile) *RouteWorld {
 				if v := omd.Get("x-s2s-origin-proxy-id"); len(v) > 0 {
 					opener = v[0]
 				}
+				for _, in := range w.insts {
+					if in.name == opener && in.dead {
+						return nil, status.Error(codes.Unavailable, "network unreachable")
+					}
+				}
 				s.Log("intra stream %s opened by %s: %s", st.Name, opener, mdSummary(omd))
 				w.intraStreams = append(w.intraStreams, st)
+				w.intraEnds[st] = [2]string{opener, peer.name}
 				// tasks travel from the stream's server side (the source shard's instance) to the
 				// instance that opened it (the one that owned the target shard when it did)
 				st.OnS2C = func(m *simio.Res) {
@@ -485,7 +504,10 @@ func parseMD(ctx context.Context, key string) (int32, bool) {
 	return int32(n), err == nil
 }
 
-func (w *RouteWorld) openSource(cl int32, ctx context.Context) (adminservice.AdminService_StreamWorkflowReplicationMessagesClient, error) {
+func (w *RouteWorld) openSource(in *rInst, cl int32, ctx context.Context) (adminservice.AdminService_StreamWorkflowReplicationMessagesClient, error) {
+	if in.dead {
+		return nil, status.Error(codes.Unavailable, "connection refused")
+	}
 	srvCl, _ := parseMD(ctx, history.MetadataKeyServerClusterID)
 	srvSh, ok := parseMD(ctx, history.MetadataKeyServerShardID)
 	sh := w.shard(sid(srvCl, srvSh))
@@ -495,7 +517,7 @@ func (w *RouteWorld) openSource(cl int32, ctx context.Context) (adminservice.Adm
 	w.nextSt++
 	sh.srcIncs++
 	st := simio.NewStream(fmt.Sprintf("src-%s#%d", sh.name(), sh.srcIncs), w.nextSt, ctx, w.cfg.Window)
-	c := &srcConn{sh: sh, st: st, inc: sh.srcIncs, next: sh.ackLevel}
+	c := &srcConn{sh: sh, st: st, inc: sh.srcIncs, next: sh.ackLevel, inst: in}
 	if old := sh.src; old != nil && old.highDelivered > sh.prevHigh {
 		sh.prevHigh = old.highDelivered
 	}
@@ -683,6 +705,21 @@ func (w *RouteWorld) c04Sig(c *srcConn, t *srcTask, k taskKey) string {
 	// previous incarnation) sits at a lower proxy id than every live copy of this task.
 	if w.readCount[k] >= 2 {
 		for _, tc := range osh.allTgt {
+			// a stream (of any incarnation: a half-closed or broken one keeps translating until its
+			// teardown) made, for this source, a translation above the task out of an ack that
+			// covers no copy of the task on that stream, and not above what earlier source
+			// incarnations had delivered: the stale entry may be a watermark-only one
+			minOn := int64(1) << 62
+			for _, d := range ds {
+				if d.conn == tc && d.proxyID < minOn {
+					minOn = d.proxyID
+				}
+			}
+			for _, r := range tc.rounds {
+				if v, ok := r.attempted[k.src]; ok && v > k.id && r.w <= minOn && v <= c.sh.prevHigh {
+					return "resent-behind-stale-entry-after-source-restart"
+				}
+			}
 			if tc.diedAt != 0 {
 				continue
 			}
@@ -764,7 +801,13 @@ func (w *RouteWorld) tgtOpen(sh *shardModel) {
 	c := &tgtConn{sh: sh, st: st, inc: sh.tgtIncs, cancel: cancel, inst: w.insts[0]}
 	if w.prof.Multi {
 		// the load balancer in front of the proxy instances picks one per connection
-		c.inst = w.insts[w.s.Draw(len(w.insts))]
+		var alive []*rInst
+		for _, in := range w.insts {
+			if !in.dead {
+				alive = append(alive, in)
+			}
+		}
+		c.inst = alive[w.s.Draw(len(alive))]
 	}
 	sh.tgt = c
 	sh.allTgt = append(sh.allTgt, c)
@@ -1065,10 +1108,36 @@ func (w *RouteWorld) Actions() []simrt.Action {
 	// multi-instance deployment: memberlist traffic between the instances; cluster shards
 	// connect once every instance is up (its Start has returned)
 	up := true
+	nAlive := 0
 	for _, in := range w.insts {
 		if !in.startOK {
 			up = false
 		}
+		if !in.dead {
+			nAlive++
+		}
+	}
+	if w.prof.Crash && up && nAlive >= 2 && w.faultDue() {
+		for _, in := range w.insts {
+			in := in
+			if !in.dead {
+				add("FAULT instance-crash:"+in.name, 2, true, func() { w.crash(in) })
+			}
+		}
+	}
+	// the failure detector of each surviving instance reports a crashed one some time later
+	for _, d := range w.pendingDead {
+		d := d
+		add("ml-suspect:"+d[0]+"->"+d[1], 3, false, func() {
+			w.mlnet.DeclareDead(d[0], d[1])
+			kept := w.pendingDead[:0]
+			for _, x := range w.pendingDead {
+				if x != d {
+					kept = append(kept, x)
+				}
+			}
+			w.pendingDead = kept
+		})
 	}
 	if w.mlnet != nil {
 		for _, p := range w.mlnet.PendingSteps() {
@@ -1081,6 +1150,9 @@ func (w *RouteWorld) Actions() []simrt.Action {
 			for j := i + 1; j < len(w.insts); j++ {
 				a, b := w.insts[i], w.insts[j]
 				pair := a.name + "-" + b.name
+				if a.dead || b.dead {
+					continue
+				}
 				if !(w.mlnet.Knows(a.name, b.name) && w.mlnet.Knows(b.name, a.name)) {
 					continue
 				}
@@ -1097,7 +1169,7 @@ func (w *RouteWorld) Actions() []simrt.Action {
 		sh := sh
 		// --- target role ---
 		c := sh.tgt
-		canOpen := c == nil || c.handlerDone || (w.prof.Churn && c.st.Dead())
+		canOpen := c == nil || c.handlerDone || (w.prof.Churn && c.st.Dead()) || (c.inst.dead && c.st.Dead())
 		if closing || !up {
 			canOpen = false
 		}
@@ -1258,6 +1330,39 @@ func (w *RouteWorld) tgtInFlight(c *tgtConn) bool {
 	return false
 }
 
+// crash: the instance disappears without a word. Every connection it had breaks, its
+// memberlist node stops answering (the others find out through their failure detectors),
+// it can no longer open anything. Its goroutines keep running in isolation (a zombie that
+// nobody can hear); the oracles ignore it from here on.
+func (w *RouteWorld) crash(in *rInst) {
+	w.fault("instance-crash")
+	in.dead = true
+	w.s.Log("instance %s crashes", in.name)
+	broken := status.Error(codes.Unavailable, "connection reset by peer")
+	for _, sh := range w.allShards() {
+		for _, tc := range sh.allTgt {
+			if tc.inst == in && !tc.st.Dead() {
+				tc.st.Break(broken)
+			}
+		}
+		if sc := sh.src; sc != nil && sc.inst == in && !sc.closed {
+			sc.closed = true
+			sc.st.Break(broken)
+		}
+	}
+	for _, st := range w.intraStreams {
+		if e := w.intraEnds[st]; (e[0] == in.name || e[1] == in.name) && !st.Dead() {
+			st.Break(broken)
+		}
+	}
+	w.mlnet.Crash(in.name)
+	for _, o := range w.insts {
+		if o != in && !o.dead {
+			w.pendingDead = append(w.pendingDead, [2]string{o.name, in.name})
+		}
+	}
+}
+
 // faultDue: the next fault of the run's budget may fire now.
 func (w *RouteWorld) faultDue() bool {
 	if w.faultsLeft <= 0 || w.phase != 0 {
@@ -1406,6 +1511,9 @@ func (w *RouteWorld) registryChecks() {
 	done := false
 	w.s.Spawn("inspect-registries", func() {
 		for _, in := range w.insts {
+			if in.dead {
+				continue
+			}
 			locals[in] = in.sm.GetLocalShards()
 			cis[in] = in.sm.GetChannelInfo()
 		}
@@ -1502,6 +1610,9 @@ func (w *RouteWorld) cleanupChecks(live []string) {
 		return
 	}
 	for _, in := range w.insts {
+		if in.dead {
+			continue // a crashed instance is gone; whatever its zombie still holds is nobody's concern
+		}
 		if ls := in.sm.GetLocalShards(); len(ls) != 0 {
 			w.violate("C08", "leftover-shard", "%s: local shards still registered after all streams ended: %v", in.name, ls)
 		}
@@ -1546,7 +1657,7 @@ func (w *RouteWorld) cleanupChecks(live []string) {
 		}
 		live = rest
 	}
-	if len(live) > 0 {
+	if len(live) > 0 && !w.prof.Crash {
 		w.violate("C08", "stuck-worker", "tasks still alive after all streams ended: %v", live)
 	}
 }
@@ -1624,12 +1735,19 @@ func (r recSM) SetLocalAckChan(sh ShardID, ch chan proxy.RoutedAck) {
 
 func (r recSM) DeliverAckToShardOwner(src ShardID, ra *proxy.RoutedAck, sc channel.ShutdownOnce, lg log.Logger, ack int64, fwd bool) bool {
 	// the receiving side may act on the ack before this call returns: note the attempt first
-	if tsh := r.w.shard(ra.TargetShard); tsh != nil && tsh.tgt != nil && callerIncarnation() == tsh.tgt.st.Name {
-		if n := len(tsh.tgt.rounds); n > 0 {
-			if tsh.tgt.rounds[n-1].attempted == nil {
-				tsh.tgt.rounds[n-1].attempted = map[ShardID]int64{}
+	if tsh := r.w.shard(ra.TargetShard); tsh != nil {
+		// the stream whose own ack loop is translating (it may be an older incarnation than the newest)
+		inc := callerIncarnation()
+		for _, tc := range tsh.allTgt {
+			if tc.st.Name != inc {
+				continue
 			}
-			tsh.tgt.rounds[n-1].attempted[src] = ack
+			if n := len(tc.rounds); n > 0 {
+				if tc.rounds[n-1].attempted == nil {
+					tc.rounds[n-1].attempted = map[ShardID]int64{}
+				}
+				tc.rounds[n-1].attempted[src] = ack
+			}
 		}
 	}
 	ok := r.ShardManager.DeliverAckToShardOwner(src, ra, sc, lg, ack, fwd)
